@@ -31,17 +31,20 @@ Ok == <<"ok", "ok", <<>>>>
 Dev(a, b, i) == Max2(Max2(Abs(a[i][1] - b[i][1]), Abs(a[i][2] - b[i][2])), Abs(a[i][3] - b[i][3]))
 BadRows(a, b) == {i \in 1..Len(a) : Dev(a, b, i) > Tol8}
 AllFin(f) == \A i \in 1..Len(f) : f[i][1] /\ f[i][2] /\ f[i][3]
-Region(base, p) == IF p \in ObsIn(base) THEN "inside" ELSE "outside"
-Regions(base, obs, rows) == {Region(base, obs[i]) : i \in rows}
+StretchSet(st, S) == {Stretch3(st, q) : q \in S}
+Region(base, st, p) == IF p \in StretchSet(st, ObsIn(base)) THEN "inside" ELSE "outside"
+Regions(base, st, obs, rows) == {Region(base, st, obs[i]) : i \in rows}
 RegionName(S) == IF S = {"inside"} THEN "inside" ELSE IF S = {"outside"} THEN "outside" ELSE "both"
 
+\* V: the vertices with the stretch divided out; the observers are the declared ones under the same stretch
 FieldVerdict(e, V, F) ==
   LET fl == e.field
       b == e.base
+      st == e.stretch
       obs == VSeq(fl.obs)
   IN IF ~(b \in BaseNames) THEN <<"machinery", "premise_base", <<b>>>>
      ELSE IF ~SameBody(V, F, BaseMesh(b).v, BaseMesh(b).f) THEN <<"machinery", "premise_samebody", <<b>>>>
-     ELSE IF ~({obs[i] : i \in 1..Len(obs)} = ObsIn(b) \cup ObsOut(b) /\ Len(obs) = Cardinality(ObsIn(b) \cup ObsOut(b)) /\ fl.den = ObsDen)
+     ELSE IF ~({obs[i] : i \in 1..Len(obs)} = StretchSet(st, ObsIn(b) \cup ObsOut(b)) /\ Len(obs) = Cardinality(ObsIn(b) \cup ObsOut(b)) /\ fl.den = ObsDen)
           THEN <<"machinery", "premise_observers", <<b>>>>
      ELSE IF ~(AllFin(fl.B.fin) /\ AllFin(fl.H.fin) /\ AllFin(fl.B0.fin) /\ AllFin(fl.H0.fin) /\ AllFin(fl.Bid.fin) /\ AllFin(fl.Hid.fin))
           THEN <<"C15", "field_nonfinite", <<b>>>>
@@ -49,10 +52,13 @@ FieldVerdict(e, V, F) ==
               sB == BadRows(fl.B0.q, fl.Bid.q)  sH == BadRows(fl.H0.q, fl.Hid.q)
           IN IF bB # {} \/ bH # {}
              THEN <<Prop(e), "field_variant_mismatch",
-                    <<RegionName(Regions(b, obs, bB \cup bH)), IF bH # {} THEN (IF bB # {} THEN "BH" ELSE "H") ELSE "B">>>>
-             ELSE IF ~e.unit /\ (sB # {} \/ sH # {})
+                    <<RegionName(Regions(b, st, obs, bB \cup bH)), IF bH # {} THEN (IF bB # {} THEN "BH" ELSE "H") ELSE "B">>>>
+             \* (the comparison with kappa = id is another property's law and is made for the unstretched bodies only: the
+             \*  observers of a body flattened 1:400 or more are closer than 1e-3 sizes to it, where the documentation
+             \*  promises no accuracy - measured 2e-7 of gross at 1:10^4 under a generic rotation)
+             ELSE IF ~e.unit /\ st = <<1, 1, 1>> /\ (sB # {} \/ sH # {})
              THEN <<"C12", "field_scale_mismatch",
-                    <<RegionName(Regions(b, obs, sB \cup sH)), IF sH # {} THEN (IF sB # {} THEN "BH" ELSE "H") ELSE "B">>>>
+                    <<RegionName(Regions(b, st, obs, sB \cup sH)), IF sH # {} THEN (IF sB # {} THEN "BH" ELSE "H") ELSE "B">>>>
              ELSE Ok
 
 \* ---------------------------------------------------------------- one construction
@@ -65,13 +71,16 @@ BoxPairInfo(V, F) ==
        IN IF ~(IsBoxSurface(V, F, c1) /\ IsBoxSurface(V, F, c2)) THEN [is |-> FALSE, pen |-> FALSE]
           ELSE [is |-> TRUE, pen |-> BoxesInterpenetrate(BBoxLo(V, F, c1), BBoxHi(V, F, c1), BBoxLo(V, F, c2), BBoxHi(V, F, c2))]
 
+\* the ground truth of a stretched mesh is evaluated on the vertices with the stretch divided out (exactly; see Mesh!Stretch)
 MeshVerdict(e) ==
-  LET V == VSeq(e.verts)
+  LET W == VSeq(e.verts)
+      V == Destretch(e.stretch, W)
       F == VSeq(e.faces_in)
       G == VSeq(e.faces_out)
       P == Prop(e)
-  IN IF ~WellFormed(VSeq(e.verts_in), F) THEN <<"machinery", "premise_wellformed", <<e.kind>>>>
-     ELSE IF ~e.proj_ok \/ V # VSeq(e.verts_in) THEN <<"-", "vertices_changed", <<e.kind>>>>     \* the object must store the vertices it was given
+  IN IF ~StretchExact(e.stretch, VSeq(e.verts_in)) THEN <<"machinery", "premise_stretch", <<e.kind>>>>
+     ELSE IF ~WellFormed(Destretch(e.stretch, VSeq(e.verts_in)), F) THEN <<"machinery", "premise_wellformed", <<e.kind>>>>
+     ELSE IF ~e.proj_ok \/ W # VSeq(e.verts_in) THEN <<"-", "vertices_changed", <<e.kind>>>>     \* the object must store the vertices it was given
      ELSE IF e.st_none THEN <<"-", "status_missing", <<e.kind>>>>                              \* a check that ran must leave a boolean
      ELSE LET isOpen == Open(F)
               isDisc == Disconnected(F)
